@@ -27,6 +27,10 @@ type Options struct {
 	// Sharding: only subtrees rooted at depth ShardDepth whose running index
 	// modulo ShardCount equals ShardIndex are explored.
 	ShardIndex, ShardCount, ShardDepth int
+	// AfterExec, if set, is called after every execution, pruned ones
+	// included (the race build looks for new race reports there); returning
+	// true stops the search.
+	AfterExec func(*Exec) bool
 }
 
 // Stats of an exploration.
@@ -238,6 +242,10 @@ func Explore(opt Options, body func(), check func(*Exec) bool) (Stats, string) {
 		}
 		if e.err != "" {
 			return e.st, e.err
+		}
+		if opt.AfterExec != nil && ex.Term != TermToolError && opt.AfterExec(ex) {
+			e.st.CappedBy = "stopped-by-check"
+			return e.st, ""
 		}
 		switch ex.Term {
 		case TermToolError:
